@@ -46,14 +46,25 @@ def impl_env(extra=None):
 
 
 def run(cmd, timeout, cwd=None, env=None, input=None):
+    """run a command in its own process group; on timeout the WHOLE group is killed (a `make` that is killed alone
+    leaves its coqc children running - one grew to 43 GB on a seeded change before this was done)"""
+    import signal
     t0 = time.time()
+    p = subprocess.Popen(cmd, cwd=cwd, env=env, stdin=subprocess.PIPE if input is not None else subprocess.DEVNULL,
+                         stdout=subprocess.PIPE, stderr=subprocess.PIPE, text=True, start_new_session=True)
     try:
-        p = subprocess.run(cmd, cwd=cwd, env=env, input=input, capture_output=True, text=True, timeout=timeout)
-        return p.returncode, p.stdout, p.stderr, time.time() - t0
-    except subprocess.TimeoutExpired as e:
-        out = e.stdout.decode() if isinstance(e.stdout, bytes) else (e.stdout or "")
-        err = e.stderr.decode() if isinstance(e.stderr, bytes) else (e.stderr or "")
-        return 124, out, err + "\nTIMEOUT", time.time() - t0
+        out, err = p.communicate(input, timeout=timeout)
+        return p.returncode, out, err, time.time() - t0
+    except subprocess.TimeoutExpired:
+        try:
+            os.killpg(p.pid, signal.SIGKILL)
+        except ProcessLookupError:
+            pass
+        try:
+            out, err = p.communicate(timeout=30)
+        except Exception:      # noqa
+            out, err = "", ""
+        return 124, out or "", (err or "") + "\nTIMEOUT", time.time() - t0
 
 
 def clean_noise(s):
@@ -123,9 +134,14 @@ def ensure_makefile():
             f.write(listing)
 
 
+# every coqc started by make may use at most 24 GB of address space: a proof that blows up fails instead of
+# taking the machine down
+MAKE = ["bash", "-c", "ulimit -v 24000000; exec make -j %d \"$@\"" % NCPU, "make"]
+
+
 def make_target(target, timeout=420):
     ensure_makefile()
-    return run(["make", "-j", str(NCPU), target], timeout, cwd=COQ)
+    return run(MAKE + [target], timeout, cwd=COQ)
 
 
 def grep_forbidden():
@@ -155,11 +171,11 @@ def step_support(ctx):
     """build everything the case files import: PyMini, Model, Spec (independent of Gen) and Gen itself"""
     targets = [f[:-2] + ".vo" for f in coq_files() if f.split("/")[0] in ("PyMini", "Model", "Spec")]
     ensure_makefile()
-    rc, out, err, dt = run(["make", "-j", str(NCPU)] + targets, 900, cwd=COQ)
+    rc, out, err, dt = run(MAKE + targets, 900, cwd=COQ)
     if rc != 0:
         raise RuntimeError("building Model/Spec failed: " + clean_noise(out + err)[-1500:])
     gen = [f[:-2] + ".vo" for f in coq_files() if f.startswith("Gen/")]
-    rc, out, err, dt = run(["make", "-j", str(NCPU), "-k"] + gen, 900, cwd=COQ)
+    rc, out, err, dt = run(MAKE + ["-k"] + gen, 900, cwd=COQ)
     return rc == 0
 
 
